@@ -41,29 +41,35 @@ Proof. exact unknown_name_refused. Qed.
 Print Assumptions C20_unknown_refused.
 
 (* ---------- proxy options ---------- *)
-(* all 64 rows over: trusted_proxy is None, trusted_proxy_count is None, headers non-empty,
-   an unknown header kind, forwarded present, something besides forwarded present *)
-Theorem C20_proxy : forall tp_none tpc_none hdrs_nonempty has_unknown has_forwarded has_other,
-  proxy_refused tp_none tpc_none hdrs_nonempty has_unknown has_forwarded has_other
-  = proxy_spec tp_none tpc_none hdrs_nonempty has_unknown has_forwarded has_other.
+(* all 128 rows over: trusted_proxy is None, trusted_proxy_count is None, the given count is below 1,
+   headers non-empty, an unknown header kind, forwarded present, something besides forwarded present *)
+Theorem C20_proxy : forall tp_none tpc_none count_below hdrs_nonempty has_unknown has_forwarded has_other,
+  proxy_refused tp_none tpc_none count_below hdrs_nonempty has_unknown has_forwarded has_other
+  = proxy_spec tp_none tpc_none count_below hdrs_nonempty has_unknown has_forwarded has_other.
 Proof. exact proxy_table. Qed.
 Print Assumptions C20_proxy.
 
-(* over the configured values, for every list of header names *)
+(* over the configured values, for every count and every list of header names *)
 Theorem C20_proxy_values : forall a,
-  proxy_stage_refused a = true <-> proxy_conflict (attr_tp_none a) (attr_tpc_none a) (attr_headers a).
+  proxy_stage_refused a = true <-> proxy_conflict (attr_tp_none a) (attr_count a) (attr_headers a).
 Proof. exact proxy_stage_spec. Qed.
 Print Assumptions C20_proxy_values.
 
 Theorem C20_proxy_accepted : forall e kw a', construct e kw = Ok a' ->
   exists a, assign_loop kw [] = Ok a
-            /\ ~ proxy_conflict (attr_tp_none a) (attr_tpc_none a) (attr_headers a).
+            /\ ~ proxy_conflict (attr_tp_none a) (attr_count a) (attr_headers a).
 Proof. exact construct_ok_no_proxy_conflict. Qed.
 Print Assumptions C20_proxy_accepted.
 
+(* whatever is accepted ends up with a trusted_proxy_count of at least 1 (given or defaulted) *)
+Theorem C20_proxy_count_accepted : forall e kw a', construct e kw = Ok a' ->
+  exists z, dict_get k_trusted_proxy_count a' = Some (SInt z) /\ (1 <= z)%Z.
+Proof. exact construct_ok_count. Qed.
+Print Assumptions C20_proxy_count_accepted.
+
 (* defaults applied as documented: count 1; x-forwarded-proto when a proxy is trusted without headers *)
-Theorem C20_proxy_defaults : forall a b c d e f, proxy_refused a b c d e f = false ->
-  proxy_count_defaulted a b c d e f = b /\ proxy_headers_defaulted a b c d e f = (negb c && negb a).
+Theorem C20_proxy_defaults : forall a b cb c d e f, proxy_refused a b cb c d e f = false ->
+  proxy_count_defaulted a b cb c d e f = b /\ proxy_headers_defaulted a b cb c d e f = (negb c && negb a).
 Proof. exact proxy_defaults_table. Qed.
 Print Assumptions C20_proxy_defaults.
 
@@ -101,7 +107,8 @@ Print Assumptions C20_defaults.
 
 (* ---------- nothing that is accepted carries one of the listed conflicts ---------- *)
 (* for every keyword dictionary: if the model of Adjustments.__init__ accepts it, then no two
-   exclusive groups are present, every name is a parameter, the proxy options are consistent,
+   exclusive groups are present, every name is a parameter, the proxy options are consistent
+   (incl. trusted_proxy_count >= 1),
    the socket list is homogeneous and supported, at least one address family is enabled and the
    family handed to getaddrinfo honours ipv4 / ipv6 *)
 Theorem C20_accepted_sound : forall e kw a', construct e kw = Ok a' ->
